@@ -1,5 +1,6 @@
 import Octo.Lemmas.OpsStateless
 import Octo.Lemmas.OpsDistinct
+import Octo.Lemmas.OpsGroupFinal
 /-!
 # C15 — Operators keep a valid changelog and compute incrementally what batch computes
 
@@ -73,5 +74,29 @@ theorem lookup_valid_out (J : Row → List Msg) (hJ : ∀ y, Congr (fun x => loo
     (hadd : ∀ x, ∀ j ∈ recs (J x), j.retr = false) (ms : List Msg) (hv : ValidLog (recs ms)) :
     ValidLog (outRecs (lookupOp fun x => (J x, none)) ms) := by
   simp only [outRecs, lookup_recs]; exact linear_valid (lookup_linear J hJ hadd) hv
+
+/-! ## SimpleGroupBy, with abstract aggregates satisfying the C14 contract `GAggOK` -/
+theorem sgroup_net_commutes (agg : GAgg α) (spec : List Row → Row) (hagg : GAggOK agg spec) (kf inf : Row → Row)
+    (hk : RowCongr kf) (hi : RowCongr inf) (ms : List Msg) (hv : ValidLog (recs ms)) (rows : List Row)
+    (hc : Consolidates rows (recs ms)) (y : Row) :
+    net (outRecs (simpleGroupOp agg (fun x => .ok (kf x)) (fun x => .ok (inf x))) ms) y
+      = cnt (groupB spec kf inf rows) y := by
+  obtain ⟨g, hg, hrun⟩ := sgroup_run agg spec hagg kf inf hk hi ms hv
+  simp only [outRecs, hrun, recs_append, recs_wmMsgs, List.nil_append, recs_map_data, net_adds]
+  exact (ginv_result agg spec hagg kf inf hk hi (recs ms) g hg rows hc).2 y
+
+/-- the output consists of additions only (and the node does not fail) -/
+theorem sgroup_valid_out (agg : GAgg α) (spec : List Row → Row) (hagg : GAggOK agg spec) (kf inf : Row → Row)
+    (hk : RowCongr kf) (hi : RowCongr inf) (ms : List Msg) (hv : ValidLog (recs ms)) :
+    ValidLog (outRecs (simpleGroupOp agg (fun x => .ok (kf x)) (fun x => .ok (inf x))) ms) ∧
+    ((simpleGroupOp agg (fun x => .ok (kf x)) (fun x => .ok (inf x))).run ms).2 = none := by
+  obtain ⟨g, _, hrun⟩ := sgroup_run agg spec hagg kf inf hk hi ms hv
+  simp only [outRecs, hrun, recs_append, recs_wmMsgs, List.nil_append, recs_map_data, and_true]
+  rw [validLog_iff_validFrom]
+  apply validFrom_adds (fun _ => Int.le_refl 0)
+  intro r hr
+  simp only [adds, List.mem_map] at hr
+  obtain ⟨_, _, rfl⟩ := hr
+  rfl
 
 end Octo.C15
